@@ -141,6 +141,23 @@ Theorem C18_file_roundtrip_partial : roundtrip_ok "robot" ex_objs = true.
 Proof. vm_compute. reflexivity. Qed.
 Print Assumptions C18_file_roundtrip_partial.
 
+(* identifiers are identifiers: the words that structure an IDL file, the names of its basic types and
+   Go's keywords are names like any other (instances of the file theorem's hypotheses, evaluated):
+   a struct Range{begin,end}, a parameter named end, actions named fn / sig / prop, an interface
+   named interface, a struct named end with members named struct and int32 *)
+Definition ex_vocab : list mobject :=
+  [ {| mo_name := "interface";
+       mo_methods := [ {| mm_uid := 100; mm_name := "fn"; mm_params := "(ii)"; mm_ret := "(ii)<Range,begin,end>";
+                          mm_pnames := Some ["begin"; "end"] |};
+                       {| mm_uid := 101; mm_name := "end"; mm_params := "((is)<end,struct,int32>)"; mm_ret := "v"; mm_pnames := Some ["package"] |} ];
+       mo_signals := [ {| ms_uid := 102; ms_name := "sig"; ms_sig := "((ii)<Range,begin,end>)" |} ];
+       mo_props := [ {| ms_uid := 103; ms_name := "prop"; ms_sig := "([(is)<end,struct,int32>])" |} ] |};
+    {| mo_name := "str"; mo_methods := [ {| mm_uid := 1; mm_name := "int32"; mm_params := "(s)"; mm_ret := "s"; mm_pnames := Some ["str"] |} ];
+       mo_signals := []; mo_props := [] |} ].
+Theorem C18_vocabulary_roundtrip : roundtrip_ok "package" ex_vocab = true.
+Proof. vm_compute. reflexivity. Qed.
+Print Assumptions C18_vocabulary_roundtrip.
+
 (* ---------- the hypotheses are needed: refutation witnesses on the pinned behaviour ---------- *)
 Definition one_method (params ret : string) : list mobject :=
   [ {| mo_name := "I"; mo_methods := [ {| mm_uid := 1; mm_name := "f"; mm_params := params; mm_ret := ret; mm_pnames := None |} ];
@@ -148,6 +165,11 @@ Definition one_method (params ret : string) : list mobject :=
 Theorem C18_refuted_keyword_prefix_struct_name : roundtrip_ok "p" (one_method "((i)<strange,a>)" "v") = false.
 Proof. vm_compute. reflexivity. Qed.
 Print Assumptions C18_refuted_keyword_prefix_struct_name.
+(* a struct named exactly as a basic IDL type: the word-boundary repair of basicType() does not help,
+   "P0: str" is the basic type *)
+Theorem C18_refuted_basic_type_struct_name : roundtrip_ok "p" (one_method "((i)<str,a>)" "v") = false.
+Proof. vm_compute. reflexivity. Qed.
+Print Assumptions C18_refuted_basic_type_struct_name.
 Theorem C18_refuted_container_prefix_struct_name : roundtrip_ok "p" (one_method "((i)<Vec<T>,a>)" "v") = false.
 Proof. vm_compute. reflexivity. Qed.
 Print Assumptions C18_refuted_container_prefix_struct_name.
